@@ -13,11 +13,17 @@ func init() {
 		ruleTablesGNMI(c, r)
 		ruleTablesKeys(c, r)
 		ruleTablesLeafList(c, r)
+		ruleSignConv(c, r, anchorScope("C02"), 1)
+		ruleWildcardOpt(c, r)
+		ruleReflectString(c, r, anchorScope("C02"))
 	})
 	register("C16", func(c *Ctx, r *Report) {
 		r.Decides("every supported key kind has a string form in KeyValueAsString and a parser in stringToKeyType and StringToType; binary keys are rejected by the generator.",
 			"value-level round-trip of each key string (formatting precision, escaping is C08).")
 		ruleTablesKeys(c, r)
+		ruleSignConv(c, r, anchorScope("C16"), 0)
+		ruleWildcardOpt(c, r)
+		ruleReflectString(c, r, anchorScope("C16"))
 	})
 }
 
@@ -62,5 +68,36 @@ func init() {
 			"apply-back equality Diff(a,b) applied to a gives b; atomic ordering; C08's injectivity of PathToString is imported, not re-decided here.")
 		ruleDiffGuards(c, r)
 		ruleAppendAlias(c, r, anchorScope("C03"), 40)
+	})
+}
+
+func init() {
+	register("C12", func(c *Ctx, r *Report) {
+		r.Decides("every descent that can run under delete is followed by an emptiness test and removal of the emptied child; every removal and every other tree write in the retrieveNode family is gated by a write flag; \"*\" is a wildcard only under GetNode's option; reflect.Value.String() is not used to stringify non-string keys.",
+			"frame preservation (leaves outside the path keep their values), idempotence, the exact subtree removed.")
+		ruleDeletePrune(c, r)
+		ruleWriteGated(c, r)
+		ruleWildcardOpt(c, r)
+		ruleReflectString(c, r, anchorScope("C12"))
+	})
+}
+
+func init() {
+	register("C06", func(c *Ctx, r *Report) {
+		r.Decides("isInRange is the closed interval under all 13 orderings and isInRanges is ∃ with empty⇒true; string lengths are counted in characters and binary lengths in bytes; every pattern is checked with no early success; no sign-changing integer conversion and no byte/rune confusion in the validators and the pattern sanitizer.",
+			"XSD-vs-RE2 semantic equivalence of patterns; anchoring of patterns that start with '^' and contain alternation; decimal64 fraction-digits.")
+		ruleOrderEnum(c, r)
+		ruleLengthUnits(c, r)
+		rulePatternForall(c, r)
+		ruleSignConv(c, r, anchorScope("C06"), 2)
+		ruleByteRune(c, r, anchorScope("C06"))
+	})
+	register("C07", func(c *Ctx, r *Report) {
+		r.Decides("every checker the property names is reachable from Validate through static calls; no validator loop silently skips an iteration; string lengths in characters; no sign-changing conversions in the validators.",
+			"that each reached checker is semantically right for all values; completeness (no error) for valid trees.")
+		ruleValidateReach(c, r)
+		ruleValidatorSkip(c, r)
+		ruleLengthUnits(c, r)
+		ruleSignConv(c, r, anchorScope("C07", "ytypes/int_type.go", "ytypes/string_type.go", "ytypes/decimal_type.go", "ytypes/binary_type.go"), 2)
 	})
 }
